@@ -351,3 +351,6 @@ func checkStore(base, name string, rep *Report) *StoreReport {
 	sort.Strings(sr.OrphanBlobs)
 	return sr
 }
+
+// DecodeRecord decodes one 62-byte handle record.
+func DecodeRecord(rec []byte) Handle { return decode(rec) }
